@@ -21,7 +21,8 @@ RULE = (
     "syntaxes, plain tags with cg:Z at any position or absent, plain or BGZF; TSV with header, H1/H2/none rows, rows repeated "
     "identically, phase-set ids shared between contigs, some reads missing. Oracle: one well-formed line per input record in "
     "order; 12 columns equal the input's (name cut at first space); optional fields other than ps/ht equal the input's in "
-    "order; exactly one ps:Z and one ht:Z: '<contig>-<phaseset>' and the haplotype for phased reads, none/none otherwise. "
+    "order; exactly one new ps:Z and one new ht:Z ('<contig>-<phaseset>' and the haplotype for phased reads, none/none otherwise), also "
+    "when the input already carries ps/ht fields from an earlier run. "
     "Non-trivial = file with a '-' strand record, a phased, an unphased and a missing read. Distinct by SHA-1 of the case."
 )
 ASSUMPTIONS = ["reads listed several times in the TSV are listed identically"]
@@ -55,6 +56,11 @@ def gaf_record(draw, name):
     tags = draw(gen_gaf.plain_tags())
     if draw(st.integers(0, 4)) > 0:
         tags.insert(draw(st.integers(0, len(tags))), "cg:Z:" + cg)
+    if draw(st.integers(0, 5)) == 0:
+        # the output of an earlier phase run: the record already carries ps/ht fields
+        old = draw(st.sampled_from([("ps:Z:none", "ht:Z:none"), ("ps:Z:chr1-10492", "ht:Z:H2"), ("ps:Z:chrX-5", "ht:Z:H1")]))
+        k = draw(st.integers(0, len(tags)))
+        tags[k:k] = list(old)
     return "\t".join([name, str(qs + qspan + 3), str(qs), str(qs + qspan), strand, path, str(plen), str(ps), str(pe),
                       str(matches), str(block), str(draw(st.sampled_from([0, 1, 60, 255])))] + tags)
 
@@ -134,11 +140,6 @@ def run_case(case):
         core.check(fb[:12] == want12, "mandatory columns changed: %s -> %s", want12, fb[:12])
         for t in fb[12:]:
             core.check(FIELD.match(t) is not None, "malformed optional field %r in %r", t, b)
-        ps = [t for t in fb[12:] if t.startswith("ps:")]
-        ht = [t for t in fb[12:] if t.startswith("ht:")]
-        core.check(len(ps) == 1 and len(ht) == 1, "expected exactly one ps and one ht field, got %s %s", ps, ht)
-        rest = [t for t in fb[12:] if not (t.startswith("ps:") or t.startswith("ht:"))]
-        core.check(rest == fa[12:], "optional fields changed: %s -> %s", fa[12:], rest)
         ent = table.get(name)
         if ent is None:
             want = ("ps:Z:none", "ht:Z:none")
@@ -149,7 +150,17 @@ def run_case(case):
         else:
             want = ("ps:Z:%s-%s" % (ent[2], ent[1]), "ht:Z:%s" % ent[0])
             kinds.add("phased")
-        core.check((ps[0], ht[0]) == want, "read %s: got %s %s, haplotag TSV says %s %s", name, ps[0], ht[0], want[0], want[1])
+        # the record GAINS one ps and one ht field with the TSV's values; everything else is the input's
+        rest = list(fb[12:])
+        for w in want:
+            core.check(w in rest, "read %s: no field %s in the output %s (haplotag TSV says %s %s)", name, w, rest, want[0], want[1])
+            rest.remove(w)
+        core.check(rest == fa[12:], "optional fields besides the new ps/ht changed: %s -> %s", fa[12:], rest)
+        n_in = sum(1 for t in fa[12:] if t.startswith("ps:") or t.startswith("ht:"))
+        n_out = sum(1 for t in fb[12:] if t.startswith("ps:") or t.startswith("ht:"))
+        core.check(n_out == n_in + 2, "expected exactly one new ps and one new ht field: %s", fb[12:])
+        if n_in:
+            cl.add("input_already_has_ps_ht")
         if fa[4] == "-":
             cl.add("minus_strand")
         if not any(t.startswith("cg:Z:") for t in fa[12:]):
